@@ -5,7 +5,7 @@ CRATE = "h_text"
 
 
 def consts(ctx, which):
-    return dict(Which=which, StrMax=4 if ctx.quick else 5, NameMax=2 if ctx.quick else 3, PathMax=3, Deep=not ctx.quick)
+    return dict(Which=which, StrMax=4 if ctx.quick else 5, NameMax=2 if ctx.quick else 3, PathMax=3 if ctx.quick else 4, Deep=not ctx.quick)
 
 
 def is_parse(c):
